@@ -169,4 +169,69 @@ def sampleHistory : List RegOp :=
    .addCategory ⟨.str 5, some 1, some [3], false, none, none, some 0, some 10, false, false, 7, none⟩,
    .addCategory ⟨.str 6, none, none, true, some 2, none, none, none, false, false, 0, some 5⟩]
 
+/-! ### several private databases alive at the same time -/
+
+/-- **databases do not interact**: in any interleaving of histories (registrations, lookups, failing
+operations, creations) addressed to a family of private databases, database `i` ends in the state,
+and gives the outcomes, of its own history run alone — whatever the others were asked in between -/
+theorem databases_do_not_interact (s : Nat → CState) (ops : List (Nat × COp)) (i : Nat) :
+    runN (cstep lg) s ops i = crun lg (s i) (partOf i ops)
+    ∧ partOf i (outputsN (cstep lg) s ops) = coutputs lg (s i) (partOf i ops) := by
+  rw [runN_apply, outputsN_part, frun_cstep, fouts_cstep]
+  exact ⟨rfl, rfl⟩
+
+/-- … hence each of them stays well-formed, and every registered unit builds a Scalar through every
+category of its quantity type in ITS database, after any interleaving -/
+theorem every_database_stays_well_formed (ops : List (Nat × COp)) (i : Nat) :
+    RegInv (runN (cstep lg) (fun _ => CState.fresh Registry.empty) ops i).reg := by
+  rw [(databases_do_not_interact lg _ ops i).1]
+  exact crun_regInv lg regInv_empty _
+
+theorem every_unit_builds_scalar_in_its_database (ops : List (Nat × COp)) (i : Nat) {c : Sym} {ci : CatRow}
+    {l : List UnitRow} {w : UnitRow}
+    (hc : catGet (runN (cstep lg) (fun _ => CState.fresh Registry.empty) ops i).reg.cats c = some ci)
+    (hl : tlGet (runN (cstep lg) (fun _ => CState.fresh Registry.empty) ops i).reg.types ci.qtype = some l)
+    (hw : w ∈ l) :
+    spec lg (runN (cstep lg) (fun _ => CState.fresh Registry.empty) ops i).reg (.create c w.sym)
+      = .ok (.quantity c w.sym) :=
+  unit_builds_scalar lg (every_database_stays_well_formed lg ops i) hc hl hw
+
+/-! ### `AddCategory(..., from_category=src, is_min_exclusive=None, is_max_exclusive=None)` -/
+
+/-- **explicit `None` for an exclusivity flag means "as in the source category"**: when the call is
+accepted, the new category carries the source's `is_min_exclusive` / `is_max_exclusive` (for whichever
+of the two was passed as `None`; a flag passed as a bool is kept) -/
+theorem explicit_none_flags_copied_from_source {r r' : Registry} {a : CatArgs} {src : Sym} {ci info : CatRow}
+    {minN maxN capN : Bool} (hf : a.fromCat = some src) (hs : src ≠ 0) (hc : catGet r.cats src = some ci)
+    (h : step lg r (.addCategoryN a minN maxN capN) = (r', .ok (.cat info))) :
+    info.minExcl = (if minN then ci.minExcl else a.minExcl) ∧ info.maxExcl = (if maxN then ci.maxExcl else a.maxExcl) := by
+  simp only [step] at h
+  cases hh : addCategory lg r (inheritFlags r a minN maxN capN) with
+  | mk r1 o =>
+    rw [hh] at h
+    cases o with
+    | error e => cases h
+    | ok ci' =>
+      simp only [Prod.mk.injEq, Except.ok.injEq, Out.cat.injEq] at h
+      obtain ⟨_, rfl⟩ := h
+      have := addCategory_flags hh
+      have ht : truthy a.fromCat = true := by rw [hf]; simp [truthy, hs]
+      have hg : getCategoryInfo r (a.fromCat.getD 0) = .ok ci := by rw [hf]; simp [getCategoryInfo, hc]
+      simp only [inheritFlags, ht, hg, ↓reduceIte] at this
+      exact this
+
+/-- two databases sharing the category 5 over the quantity type 1 with different units (database 0:
+units 2, 3; database 1: units 2, 4), used alternately: database 1 refuses (5, 3), database 0 builds it -/
+def twoDatabases : List (Nat × COp) :=
+  [(0, .reg (.addUnitBase (.str 1) 10 (.str 2))),
+   (1, .reg (.addUnitBase (.str 1) 10 (.str 2))),
+   (0, .reg (.addUnit (.str 1) 11 (.str 3) (.mob ⟨0, 100, 1, 0⟩) (.mob ⟨0, 1, 100, 0⟩) 0)),
+   (1, .reg (.addUnit (.str 1) 12 (.str 4) (.mob ⟨0, 1, 1000, 0⟩) (.mob ⟨0, 1000, 1, 0⟩) 0)),
+   (0, .reg (.addCategory ⟨.str 5, some 1, none, false, none, none, none, none, false, false, 0, none⟩)),
+   (1, .reg (.addCategory ⟨.str 5, some 1, none, false, none, none, none, none, false, false, 0, none⟩)),
+   (1, .query (.create 5 3)),
+   (0, .query (.create 5 3)),
+   (0, .query (.create 5 4)),
+   (1, .query (.create 5 4))]
+
 end Barril.Reg
